@@ -13,19 +13,28 @@ RULE = ("/proc/meminfo drawn as a list of kernel-formatted lines: EXHAUSTIVE ove
         "random part: magnitude classes (ordinary, cached+buffers>total, available>total, free>total, zero total, 2^64-range, 0..3), "
         "line order shuffled, unit-less extra lines, zoneinfo with 0-4 zones incl. watermarks larger than free memory, page sizes "
         "4K/16K/64K; swap: SwapTotal/SwapFree present or sysinfo() fallback, vmstat absent / without / with one / with both swap "
-        "counters in any order; plus a malformed byte stream (dropped/blank/duplicated/non-numeric lines, signs, underscores, CRLF) "
+        "counters in any order, repeated counter lines, extra columns, value-less lines; the fallback estimate also at magnitudes "
+        "2^53..2^74 bytes where its double arithmetic rounds (model with IEEE rounding, compared exactly); meminfo with the Linux 2.4 "
+        "header and other non 'name number' lines; histories of virtual_memory()/Process.memory_percent() calls over changing MemTotal "
+        "(cached total); plus a malformed byte stream (dropped/blank/duplicated/non-numeric lines, signs, underscores, CRLF) "
         "compared with the model only. Non-trivial = at least MemTotal and MemFree (or one swap source) present; distinct = "
         "distinct canonical case hash.")
 TRUSTED = ["correspondence harness props/C08.py + pv/ (fake /proc tree, patched cext.linux_sysinfo and _pslinux.PAGESIZE, captured warnings)",
            "kernel formats of /proc/meminfo, /proc/zoneinfo, /proc/vmstat and the MemAvailable fallback formula transcribed in coq/C08/Spec.v",
-           "IEEE double arithmetic and round() of CPython (the model computes in exact integers; percent compared in tenths)"]
+           "IEEE double arithmetic and round() of CPython: the fallback estimate's doubles are modelled by rnd53 (53-bit round-half-even on integers/half-integers), "
+           "percent is computed exactly and compared exactly in tenths outside a 1e-9 neighbourhood of a rounding boundary"]
 ASSUMPTIONS = ["CPython semantics of bytes.split/strip/startswith/int and of warnings are modelled, not verified",
                "numbers with more than 4300 digits (int() limit) or values >= 2^1024 (float overflow in usage_percent) are outside the model",
-               "the fallback estimate's float arithmetic is exact only below 2^53*1024 bytes; generated watermark-path cases stay below 2^50 kB",
+               "the exact fallback formula is demanded only under Spec.float_exact (watermark multiple of 512, free+watermark+pagecache+slab < 2^61 bytes); beyond it the "
+               "implementation is compared with the IEEE-rounding model only",
                "the page size is the module constant psutil._pslinux.PAGESIZE (patched per case to 4096/16384/65536)"]
 EXHAUSTIVE = {"quick": "all 512 subsets of 9 optional meminfo field groups; all 96 combinations of MemAvailable mode x {Active(file),Inactive(file),SReclaimable,zoneinfo} subsets",
               "thorough": "the same 512 + 96 enumerations, each repeated 6 times under rotating magnitude classes"}
 SHARD = 120
+# model parameter: True = code with notes/fixes/C08-meminfo-legacy-header.diff applied (flip the default when that
+# patch is committed; C08_LENIENT=1 selects it for a run against a patched copy)
+LENIENT = bool(int(os.environ.get("C08_LENIENT", "0")))
+FINDING_JUNK = "meminfo-non-numeric-line"
 
 FIELD_ORDER = ["total", "available", "percent", "used", "free", "active", "inactive", "buffers", "cached", "shared", "slab"]
 SWAP_ORDER = ["total", "used", "free", "percent", "sin", "sout"]
@@ -114,15 +123,18 @@ def _zone(rng, mode, v, mag):
         else:
             low = rng.choice([0, rng.randint(0, 70000), rng.randint(0, max(1, free_pages // 2))])
         if mag == "huge":
-            low = rng.randint(0, 10 ** 6)
-        out.append(["low", rng.choice([8, 8, 0, 1]), rng.choice([5, 0, 2]), str(low)])
+            low = rng.choice([rng.randint(0, 10 ** 6), v["MemFree:"] // 8, v["MemFree:"] // 3, 2 ** 52 + 1, rng.randint(0, 2 ** 60)])
+        if rng.random() < 0.8:
+            out.append(["low", rng.choice([8, 8, 0, 1]), rng.choice([5, 0, 2]), str(low)])
+        else:
+            out.append(["low", rng.choice(["\t", " \t ", "", "        "]), rng.choice(["\t", " ", "  \t"]), str(low), rng.choice(["", " ", "\t "])])
         out.append(["other", "        high     %d" % rng.randint(0, 10 ** 5)])
         out.append(["other", rng.choice(["        protection: (0, 2934, 31818, 31818)", "      nr_free_pages 3840", "",
                                           "  pagesets", "    cpu: 0", "        slow     7", "\tallow 5"])])
     return out
 
 
-def _vm_case(rng, present, mag, amode, zmode, ps=4096, shuffle=False, cls=None):
+def _vm_case(rng, present, mag, amode, zmode, ps=4096, shuffle=False, cls=None, junk=None):
     """present: set of optional names (a name of GROUPS / AVGROUP / others)."""
     v = _values(rng, mag)
     names = {"MemTotal:", "MemFree:"}
@@ -136,10 +148,6 @@ def _vm_case(rng, present, mag, amode, zmode, ps=4096, shuffle=False, cls=None):
         names.add("MemAvailable:")
         v["MemAvailable:"] = avail
     zone = _zone(rng, zmode, v, mag)
-    # keep the float arithmetic of the fallback exact (see ASSUMPTIONS)
-    if mag == "huge" and zone is not None and not avail and {"Active(file):", "Inactive(file):", "SReclaimable:"} <= names:
-        names.add("MemAvailable:")
-        v["MemAvailable:"] = avail = rng.randint(1, v["MemTotal:"])
     for extra in ("SwapCached:", "VmallocTotal:", "HugePages_Total:", "Hugepagesize:", "Dirty:"):
         if rng.random() < 0.4:
             names.add(extra)
@@ -158,9 +166,20 @@ def _vm_case(rng, present, mag, amode, zmode, ps=4096, shuffle=False, cls=None):
             pad = 1
         else:
             pad = rng.randint(1, 12)
-        mem.append([n, pad - 1, val, n != "HugePages_Total:"])
+        rest = "" if n == "HugePages_Total:" else " kB"
+        if rng.random() < 0.03:
+            rest = rng.choice([" kB  ", "\tkB", " kB 7 extra", " "])
+        mem.append([n, pad - 1, val, rest])
+    if junk == "legacy":
+        mem = [["#junk", "        total:    used:    free:  shared: buffers:  cached:"],
+               ["Mem:", 1, str(v["MemTotal:"] * 1024), " %d %d        0 134393856 588922880" % (v["MemTotal:"] * 1024, v["MemFree:"] * 1024)],
+               ["Swap:", 0, "2097434624", "   589824 2096844800"]] + mem
+    elif junk:
+        mem.insert(rng.randint(0, len(mem)), ["#junk", rng.choice(["", "   ", "Foo:", "Foo: bar kB", "garbage here", "Name: 0x10 kB", "x y z"])])
     if cls is None:
         cls = "vm-" + mag + ("-fallback" if not avail else "") + ("-wm" if zone else "")
+    if junk:
+        cls = "vm-junk-" + ("legacy" if junk == "legacy" else "line")
     return {"kind": "vm", "cls": cls, "ps": ps, "mem": mem, "zone": zone}
 
 
@@ -178,7 +197,11 @@ def _swap_case(rng, tier):
         names.append("SwapFree:")
     if rng.random() < 0.2:
         rng.shuffle(names)
-    mem = [[n, rng.choice([0, 3, 7]), str(v[n]), True] for n in names]
+    mem = [[n, rng.choice([0, 3, 7]), str(v[n]), " kB"] for n in names]
+    junk = rng.random() < 0.05
+    if junk:
+        mem = [["#junk", "        total:    used:    free:  shared: buffers:  cached:"], ["Mem:", 1, "1050001408", " 1031790592 18210816        0 134393856 588922880"],
+               ["Swap:", 0, "2097434624", "   589824 2096844800"]] + mem
     unit = rng.choice([1, 1, 4096, 1024])
     sysinfo = [rng.choice([0, 524287, rng.randint(0, 10 ** 9)]), 0, unit]
     sysinfo[1] = rng.randint(0, sysinfo[0]) if mag != "freegt" else sysinfo[0] + 3
@@ -195,11 +218,40 @@ def _swap_case(rng, tier):
             if rng.random() < 0.2 and i == 0:
                 vm.append(["pgalloc_dma", ctr()])
         vm += [["pgfree", ctr()], ["swpin_zero", ctr()], ["thp_swpout", ctr()]][:rng.randint(0, 3)]
+        odd = rng.random()
+        if odd < 0.25:       # repeated counter lines (no kernel prints them): the file is read as a log
+            for _ in range(rng.randint(1, 3)):
+                vm.insert(rng.randint(0, len(vm)), [rng.choice(["pswpin", "pswpout", "pgpgin"]), ctr()])
+            vmode += "-dup"
+        if 0.15 < odd < 0.4:  # extra columns, value-less and blank lines
+            for ln in vm:
+                if rng.random() < 0.3:
+                    ln.append(rng.choice([" 7", " x y", " ", "  9"]))
+            for _ in range(rng.randint(0, 2)):
+                vm.insert(rng.randint(0, len(vm)), ["#junk", rng.choice(["", "nr_foo", "numa_hit", " pswpin 5", "x pswpout 6", "\tpswpin 1"])])
+            vmode += "-odd"
         if rng.random() < 0.15:
             rng.shuffle(vm)
     ps = rng.choice([4096] * 6 + [16384, 65536])
     cls = "swap-" + src + "-" + vmode + ("" if ps == 4096 else "-bigpage")
+    if junk:
+        cls = "swap-junk-legacy"
     return {"kind": "swap", "cls": cls, "ps": ps, "mem": mem, "sysinfo": sysinfo, "vmstat": vm}
+
+
+def _phymem_case(rng):
+    """history of virtual_memory() / Process.memory_percent() calls; MemTotal may change between calls (hotplug, balloon)"""
+    totals = [rng.choice([0, 1, 1000, 16384256, 2 ** 40]) for _ in range(3)]
+    ev = []
+    for _ in range(rng.randint(1, 6)):
+        t = rng.choice(totals)
+        mem = [["MemTotal:", 7, str(t), " kB"], ["MemFree:", 8, str(rng.randint(0, t)), " kB"], ["MemAvailable:", 3, str(rng.randint(0, t)), " kB"],
+               ["Buffers:", 3, "0", " kB"], ["Cached:", 3, "0", " kB"], ["Shmem:", 3, "0", " kB"], ["Active:", 3, "0", " kB"], ["Inactive:", 3, "0", " kB"]]
+        if rng.random() < 0.55:
+            ev.append(["mp", rng.choice([0, 1, 250, rng.randint(0, 10 ** 7), 2 ** 36]), mem])
+        else:
+            ev.append(["vm", mem])
+    return {"kind": "phymem", "cls": "phymem-" + "".join(e[0][0] for e in ev)[:3], "events": ev}
 
 
 RAW_MEM = [
@@ -258,6 +310,16 @@ def gen_cases(rng, tier):
                               ps=rng.choice([4096] * 5 + [16384, 65536]), shuffle=rng.random() < 0.25))
     for _ in range(n_swap):
         cases.append(_swap_case(rng, tier))
+    for i in range(n_rand // 15):
+        present = {g for g in GROUPS + AVGROUP[:2] if rng.random() < 0.9}
+        cases.append(_vm_case(rng, present, rng.choice(["normal", "tiny", "zero"]), rng.choice(amodes), rng.choice(zmodes),
+                              junk="legacy" if i % 2 == 0 else "line"))
+    for _ in range(n_rand // 6):      # the estimate's double arithmetic beyond 2^53
+        present = set(GROUPS) | set(AVGROUP)
+        cases.append(_vm_case(rng, present, "huge", rng.choice(["absent", "zero"]), rng.choice(["zones", "bigwm"]),
+                              ps=rng.choice([4096, 4096, 65536]), cls="vm-float-path"))
+    for _ in range(n_rand // 6):
+        cases.append(_phymem_case(rng))
     for i in range(n_raw):
         if i % 2 == 0:
             mi = rng.choice(RAW_MEM)
@@ -274,8 +336,31 @@ def gen_cases(rng, tier):
 
 
 # ------------------------------------------------------------------ Coq terms
+def _rest(x):
+    if x is True:
+        return " kB"
+    if x is False:
+        return ""
+    return x
+
+
 def _mem_term(mem):
-    return G.lst(["(Build_mline %s %s %s %s)" % (G.by(n), G.nat(p), G.by(v), G.bo(kb)) for n, p, v, kb in mem])
+    its = []
+    for e in mem:
+        if e[0] == "#junk":
+            its.append("(MJunk %s)" % G.by(e[1]))
+        else:
+            n, p, v, r = e
+            its.append("(MLine (Build_mline %s %s %s %s))" % (G.by(n), G.nat(p), G.by(v), G.by(_rest(r))))
+    return G.lst(its)
+
+
+def _has_junk(mem):
+    return any(e[0] == "#junk" for e in mem)
+
+
+def _ws(x, extra=0):
+    return " " * (x + extra) if isinstance(x, int) else x
 
 
 def _zone_term(zone):
@@ -284,9 +369,22 @@ def _zone_term(zone):
     its = []
     for z in zone:
         if z[0] == "low":
-            its.append("(ZLow %s %s %s)" % (G.nat(z[1]), G.nat(z[2]), G.by(z[3])))
+            w3 = z[4] if len(z) > 4 else ""
+            its.append("(ZLow %s %s %s %s)" % (G.by(_ws(z[1])), G.by(_ws(z[2], 1)), G.by(z[3]), G.by(w3)))
         else:
             its.append("(ZOther %s)" % G.by(z[1]))
+    return "(Some %s)" % G.lst(its)
+
+
+def _vm_term(vm):
+    if vm is None:
+        return "None"
+    its = []
+    for e in vm:
+        if e[0] == "#junk":
+            its.append("(VJunk %s)" % G.by(e[1]))
+        else:
+            its.append("(VLine (Build_vline %s %s %s))" % (G.by(e[0]), G.by(e[1]), G.by(e[2] if len(e) > 2 else "")))
     return "(Some %s)" % G.lst(its)
 
 
@@ -300,16 +398,23 @@ def _optb(hexs):
 
 def coq_term(case):
     k = case["kind"]
+    L = G.bo(LENIENT)
     if k == "vm":
-        return "run_vm %s %s %s" % (G.z(case["ps"]), _mem_term(case["mem"]), _zone_term(case["zone"]))
+        return "run_vm %s %s %s %s" % (L, G.z(case["ps"]), _mem_term(case["mem"]), _zone_term(case["zone"]))
     if k == "swap":
-        vm = case["vmstat"]
-        vt = "None" if vm is None else "(Some %s)" % G.lst(["(Build_vline %s %s)" % (G.by(n), G.by(v)) for n, v in vm])
-        return "run_swap %s %s %s %s" % (G.z(case["ps"]), _mem_term(case["mem"]), _si(case["sysinfo"]), vt)
+        return "run_swap %s %s %s %s %s" % (L, G.z(case["ps"]), _mem_term(case["mem"]), _si(case["sysinfo"]), _vm_term(case["vmstat"]))
     if k == "vmraw":
-        return "run_vm_raw %s %s %s" % (G.z(case["ps"]), G.by(bytes.fromhex(case["meminfo"])), _optb(case["zoneinfo"]))
+        return "run_vm_raw %s %s %s %s" % (L, G.z(case["ps"]), G.by(bytes.fromhex(case["meminfo"])), _optb(case["zoneinfo"]))
     if k == "swapraw":
-        return "run_swap_raw %s %s %s %s" % (G.z(case.get("ps", 4096)), G.by(bytes.fromhex(case["meminfo"])), _si(case["sysinfo"]), _optb(case["vmstat"]))
+        return "run_swap_raw %s %s %s %s %s" % (L, G.z(case.get("ps", 4096)), G.by(bytes.fromhex(case["meminfo"])), _si(case["sysinfo"]), _optb(case["vmstat"]))
+    if k == "phymem":
+        evs = []
+        for e in case["events"]:
+            if e[0] == "vm":
+                evs.append("(PVm %s)" % _mem_term(e[1]))
+            else:
+                evs.append("(PMp %s %s)" % (G.z(e[1] * 4096), _mem_term(e[2])))
+        return "run_phymem %s" % G.lst(evs)
     raise ValueError(k)
 
 
@@ -325,13 +430,16 @@ def _canon_vm(o):
 def coq_struct(case, raw):
     k = case["kind"]
     if k == "vm":
-        return {"printed": [raw[0], raw[1]], "model": _canon_vm(raw[2]), "spec": None if raw[3] is None else _canon_vm(raw[3])}
+        return {"printed": [raw[0], raw[1]], "model": _canon_vm(raw[2]), "spec": None if raw[3] is None else _canon_vm(raw[3]),
+                "junk": raw[4], "float_exact": raw[5]}
     if k == "swap":
-        return {"printed": [raw[0], raw[1]], "model": raw[2], "spec": raw[3]}
+        return {"printed": [raw[0], raw[1]], "model": raw[2], "spec": raw[3], "junk": raw[4]}
     if k == "vmraw":
         return {"model": _canon_vm(raw[0]), "spec": None}
     if k == "swapraw":
         return {"model": raw[0], "spec": None}
+    if k == "phymem":
+        return {"printed": raw[0], "model": raw[1], "spec": raw[2]}
 
 
 # ------------------------------------------------------------------ judge
@@ -340,17 +448,21 @@ def _is_val(o):
 
 
 def _pct_ok(pf, t, num, den):
-    """pf: the implementation's percent as an exact Fraction; t: expected tenths; num/den: exact used, total."""
-    p10 = pf * 10
-    tol = Fraction(1, 2 ** 40) * max(1, abs(t))
-    if abs(p10 - t) <= tol:
-        return True
-    if den != 0:
-        x10 = Fraction(num * 1000, den)
-        frac = x10 - (x10.numerator // x10.denominator)
-        if abs(frac - Fraction(1, 2)) <= Fraction(1, 10 ** 6) and abs(p10 - t) <= 1 + tol:
-            return True   # exact value within 1e-7 percent of a rounding boundary: either neighbour
-    return False
+    """pf: the implementation's percent as an exact Fraction (of the float it returned); t: expected tenths
+    (round-half-even of the exact ratio); num/den: exact used, total.
+    EXACT comparison (the float must be the double nearest to t/10) unless the exact percentage lies within
+    1e-9 (or, for astronomically large ratios, the float noise |x|*2^-49) of a rounding boundary, where
+    either neighbouring tenth is accepted."""
+    if den == 0:
+        return pf == 0
+    x10 = Fraction(num * 1000, den)                       # exact percentage, in tenths
+    noise = max(Fraction(1, 10 ** 8), abs(x10) / 2 ** 49)   # 1e-9 percent = 1e-8 tenths
+    dist = abs((x10 - (x10.numerator // x10.denominator)) - Fraction(1, 2))
+    big = abs(t) >= 2 ** 52                                # round(x, 1) returns x itself: only float noise left
+    if dist > noise and not big:
+        return pf == Fraction(t / 10)                      # int / int is correctly rounded: the double nearest to t/10
+    slack = abs(t) / Fraction(2 ** 49) + (0 if dist > noise else 1)
+    return abs(pf * 10 - t) <= slack
 
 
 def _norm(impl_main, side, target, pct_idx, used_total):
@@ -365,9 +477,61 @@ def _norm(impl_main, side, target, pct_idx, used_total):
     return Val(r)
 
 
+_REG = {}
+
+
+def _finding_registered(key):
+    """is the finding listed in known_findings.json (merged by the coordinator)?  Until then the class is compared
+    with the model only, so that the check never alarms on a finding that has not been triaged yet.
+    C08_ORACLE_ALL=1 forces the property oracle on (to demonstrate the violation)."""
+    if os.environ.get("C08_ORACLE_ALL"):
+        return True
+    if key not in _REG:
+        try:
+            import json
+            here = os.path.dirname(os.path.dirname(os.path.abspath(__file__)))
+            data = json.load(open(os.path.join(here, "known_findings.json")))
+            _REG[key] = any(f.get("property") == ID and f.get("key") == key for f in data.get("findings", []))
+        except Exception:
+            _REG[key] = False
+    return _REG[key]
+
+
+def _ratio_ok(fr, nd):
+    """memory_percent(): float vs exact ratio value*100/total (three float operations)"""
+    ex = Fraction(nd[0], nd[1])
+    return abs(Fraction(fr[0], fr[1]) - ex) <= abs(ex) / 2 ** 49
+
+
+def _judge_phymem(case, coq, impl):
+    from pv.core import Verdict
+    steps, side = impl
+
+    def norm(target):
+        out = []
+        for st, tg in zip(steps, target):
+            c, o = st
+            if _is_val(o) and _is_val(tg[1]) and isinstance(o["a"][0], list) and isinstance(tg[1]["a"][0], list) \
+                    and tg[1]["a"][0][1] != 0 and _ratio_ok(o["a"][0], tg[1]["a"][0]):
+                o = tg[1]
+            out.append([c, o])
+        return out
+    if coq["spec"] is not None and (len(steps) != len(coq["spec"]) or norm(coq["spec"]) != coq["spec"]):
+        return Verdict("violation", "cached total / memory_percent differ from the demanded history: %r" % (steps,))
+    if len(steps) != len(coq["model"]) or norm(coq["model"]) != coq["model"]:
+        return Verdict("corr", "impl != model")
+    if not side.get("types_ok", True):
+        return Verdict("corr", "memory_percent() did not return a float")
+    return Verdict("ok")
+
+
 def judge(case, coq, impl):
     from pv.core import Verdict
+    if case["kind"] == "phymem":
+        return _judge_phymem(case, coq, impl)
     main, side = impl
+    if coq.get("junk") and not LENIENT and not _finding_registered(FINDING_JUNK):
+        coq = dict(coq, spec=None)      # not triaged yet: model only
     model, spec = coq["model"], coq["spec"]
     vm = case["kind"] in ("vm", "vmraw")
     if vm:
@@ -409,6 +573,8 @@ def judge(case, coq, impl):
 
 
 def finding_key(case, coq):
+    if not LENIENT and case["kind"] in ("vm", "swap") and _has_junk(case["mem"]):
+        return FINDING_JUNK
     return None
 
 
@@ -426,12 +592,54 @@ def _write(path, data):
         f.write(data)
 
 
+def _impl_phymem(case, coq, env):
+    import warnings
+
+    import psutil
+    from psutil import _pslinux
+    from pv import fakeproc
+    root = os.path.join(env["work"], "procphy")
+    fp = fakeproc.FakeProc(root)
+    old_path, old_ps = psutil.PROCFS_PATH, _pslinux.PAGESIZE
+    fakeproc.attach(psutil, root)
+    _pslinux.PAGESIZE = 4096
+    pid = 4243
+    fp.add(pid)
+    steps, side = [], {"types_ok": True}
+    try:
+        psutil._TOTAL_PHYMEM = None
+        p = psutil.Process(pid)
+        for e, printed in zip(case["events"], coq["printed"]):
+            _write(os.path.join(root, "meminfo"), unB(printed))
+            _write(os.path.join(root, "zoneinfo"), None)
+            with warnings.catch_warnings():
+                warnings.simplefilter("ignore")
+                if e[0] == "vm":
+                    o = outcome(psutil.virtual_memory, lambda r: r.total)
+                else:
+                    fp.write(pid, "statm", b"%d %d 3 4 0 5 0\n" % (e[1] + 10, e[1]))
+
+                    def conv(x):
+                        if type(x) is not float:
+                            side["types_ok"] = False
+                        fr = Fraction(x)
+                        return [fr.numerator, fr.denominator]
+                    o = outcome(p.memory_percent, conv)
+            steps.append([psutil._TOTAL_PHYMEM, o])
+        return [steps, side]
+    finally:
+        psutil.PROCFS_PATH, _pslinux.PAGESIZE = old_path, old_ps
+        psutil._TOTAL_PHYMEM = None
+
+
 def impl_run(case, coq, env):
     import warnings
 
     import psutil
     from psutil import _pslinux
     k = case["kind"]
+    if k == "phymem":
+        return _impl_phymem(case, coq, env)
     root = os.path.join(env["work"], "proc")
     os.makedirs(root, exist_ok=True)
     if k in ("vm", "swap"):
